@@ -27,6 +27,10 @@ def cases(tier, seed):
         for n in (30, 3000):
             yield {"k": "wname", "files": [c07.fspec("ML", n, nm), c07.fspec("BAS", 30, "WORLD", "BAS")], "fill": "default"}
             yield {"k": "wname", "files": [c07.fspec("ML", 10, "FIRST"), c07.fspec("ASC", n, nm, "TXT"), c07.fspec("ML", 30, "LAST")], "fill": "default"}
+    # content made of one byte value over whole granules ($00, $FF, $55): a granule's worth of such bytes is still data
+    for pat in ("00", "ff", "55"):
+        for kind, n in (("ML", 7000), ("ML", 3 * 2304 - 10), ("ASC", 2 * 2304), ("BAS", 7000)):
+            yield {"k": "write", "files": [c07.fspec("ML", 10, "HEAD"), c07.fspec(kind, n, "SOLID", "DAT", pat=pat), c07.fspec("ML", 10, "TAIL")], "fill": "default"}
     # lists that do not fit, handed over in one call: whatever the buffer holds after the refusal must still be consistent
     for sizes in ([66, 3], [30, 30, 30], [1, 68], [34, 34, 1]):
         yield {"k": "overfull", "sizes": sizes, "fill": "default", "files": []}
@@ -99,6 +103,19 @@ def check_case(case):
             viol.append({"component": "fsck", "cell": cell, "symptom": "fsck: " + cat, "expected": "consistent Disk BASIC filesystem",
                          "observed": detail, "input": dict(case, nfiles=len(files))})
         if not probs:
+            # "... the stream obtained by concatenating the chain's granules in chain order is header, data, trailer"
+            try:
+                got = {f["name"].strip().upper(): f for f in dskfs.read_files(img)}
+                for spec in files:
+                    if spec["type"] == 2 and spec["dtype"] == 0:
+                        g = got.get(spec["name"].upper()[:8].strip())
+                        if g is not None and (bytes(g["data"]) != C.pattern(spec["n"], spec["pat"]) or g["load"] != spec["load"] or g["exec"] != spec["exec"]):
+                            viol.append({"component": "fsck", "cell": cell, "symptom": "machine-language stream is not header, data, trailer of the file",
+                                         "expected": "{} bytes of {}".format(spec["n"], spec["pat"]), "observed": "{} bytes, load {:04X}".format(len(g["data"]), g["load"] or 0),
+                                         "input": dict(case, nfiles=len(files))})
+                            break
+            except dskfs.FsError:
+                pass
             ents = dskfs.entries(img)
             if len(ents) != len(files):
                 viol.append({"component": "fsck", "cell": cell, "symptom": "directory holds {} entries for {} files".format(
